@@ -28,11 +28,11 @@ if [ $before -ne 0 ] || [ $after -eq 0 ] || [ $tests -ne 0 ] || [ $applies -ne 0
   echo "$id NOT CONFIRMED"; tail -3 $log.before $log.after $log.tests 2>/dev/null; rmdir seeded/$id; exit 1
 fi
 cp $src/patch_$lid.diff seeded/$id/patch.diff; cp $src/demo_$lid.py seeded/$id/demo.py; cp $src/meta_$lid.json seeded/$id/meta_seeder.json 2>/dev/null
-# first without the source-delta escalation (what the plain quick tier sees), then, if that misses, as it is run in practice
+# plain quick tier first; if it misses, once more with the opt-in escalation to the thorough sizes
 VERIF_NO_ESCALATE=1 tools/run_seed.sh seeded/$id/patch.diff $tier $prop > $log.check 2>&1
 if grep -q "^rc=0" $log.check; then
   echo "(plain $tier tier missed it; re-running with escalation)" >> $log.check
-  tools/run_seed.sh seeded/$id/patch.diff $tier $prop >> $log.check 2>&1
+  VERIF_ESCALATE=1 tools/run_seed.sh seeded/$id/patch.diff $tier $prop >> $log.check 2>&1
 fi
 cat $log.check | tail -6
 /venv/bin/python - "$id" "$prop" "$tier" "$log.check" "$log.after" <<'PY'
